@@ -29,8 +29,47 @@ PROPERTY = "C02"
 # corpus: every seed of every C01 family and each of its depth-1 successors
 
 
+def _mutable_seeds(d):
+    """statements of builders created with immutable=False (builder calls work in place; rendering still must not write)"""
+    from pypika_tortoise import Table
+    from pypika_tortoise import functions as FN
+
+    QQ = fp.QCLS[d]
+
+    def tabs():
+        return Table("t"), Table("u")
+
+    def upd_join():
+        t, u = tabs()
+        return QQ.update(t, immutable=False).join(u).on(t.id == u.tid).set(t.a, u.x).where(u.y > 1)
+
+    def sel():
+        t, u = tabs()
+        return QQ.from_(t, immutable=False).join(u).on(t.id == u.tid).select(t.a, FN.Count(u.x)).where(t.b.isin([1, 2])).groupby(t.a).orderby(t.a).limit(3)
+
+    def ins():
+        t, u = tabs()
+        return QQ.into(t, immutable=False).columns("a", "b").insert(1, "x").on_conflict("a").do_update("b", 5)
+
+    def upd_from():
+        t, u = tabs()
+        return QQ.update(t, immutable=False).from_(u).set(t.a, u.x).where(t.id == u.tid)
+
+    return {"upd_join": upd_join, "sel": sel, "ins": ins, "upd_from": upd_from}
+
+
+_EXTRA_FAM = {"mut:" + d: (_mutable_seeds(d), {}) for d in CTX}
+
+
+def _fam(name):
+    return _EXTRA_FAM[name] if name in _EXTRA_FAM else c01.FAM[name]
+
+
 def corpus_keys(tier):
     keys = []
+    for fam, seeds_ops in _EXTRA_FAM.items():
+        for sname in seeds_ops[0]:
+            keys.append([fam, sname, None])
     for fam, (seeds, ops) in c01.FAM.items():
         for sname in seeds:
             keys.append([fam, sname, None])
@@ -41,7 +80,7 @@ def corpus_keys(tier):
 
 def build(key):
     fam, sname, op = key
-    seeds, ops = c01.FAM[fam]
+    seeds, ops = _fam(fam)
     o = seeds[sname]()
     if op is not None:
         try:
@@ -329,7 +368,7 @@ def run_hist(case, res):
             oa, ob = obs(o), obs(twin)
             seen = oa != ob
             if not seen:
-                fam_ops = c01.FAM[key[0]][1]
+                fam_ops = _fam(key[0])[1]
                 for k2, f2 in fam_ops.items():
                     try:
                         xa = obs(f2(o))
@@ -353,7 +392,7 @@ def run_hist(case, res):
             f0 = _selffp(o)
     # transient writes: a render function that stores into some object (other than via the Parameterizer / a fresh
     # context copy).  Such objects are handed to the scheduler below even if nothing differs afterwards.
-    d_own = key[0].split(":")[1] if key[0].startswith(("qb:", "setop:")) else "generic"
+    d_own = key[0].split(":")[1] if key[0].startswith(("qb:", "setop:", "mut:")) else "generic"
     writers = may_write(build(key), "i:" + d_own)
     if writers:
         res.extra.setdefault("render_functions_with_stores", set()).update(writers)
@@ -370,7 +409,7 @@ def run_hist(case, res):
         global _DYN_SCHED
         if _DYN_SCHED < DYN_SCHED_CAP:
             _DYN_SCHED += 1
-            d = key[0].split(":")[1] if key[0].startswith(("qb:", "setop:")) else "generic"
+            d = key[0].split(":")[1] if key[0].startswith(("qb:", "setop:", "mut:")) else "generic"
             for ops in (["i:" + d, "p:" + d],):
                 run_sched({"key": key, "ops": ops, "bound": 1, "max_exec": 400}, res)
         else:
